@@ -527,16 +527,17 @@ impl<K: KeyT> World<K> {
                 // shadow: what the document says, when it is a well-formed one
                 let shadow = match kind {
                     "threaded" => {
-                        let mut pairs: Vec<(u128, Vec<u8>)> = Vec::new();
+                        // a repeated string keeps its last value (linear: documents can have 600 000 entries)
+                        let mut last: HashMap<Vec<u8>, u128> = HashMap::new();
                         if doc != "_" {
                             for e in doc.split(',') {
                                 let mut p = e.split('=');
                                 let s = unhex(p.next().unwrap());
                                 let v: u128 = p.next().unwrap().parse().unwrap();
-                                pairs.retain(|(_, x)| *x != s);
-                                pairs.push((v, s));
+                                last.insert(s, v);
                             }
                         }
+                        let mut pairs: Vec<(u128, Vec<u8>)> = last.into_iter().map(|(s, v)| (v, s)).collect();
                         pairs.sort();
                         Shadow::from_list(&pairs.into_iter().map(|(_, s)| s).collect::<Vec<_>>())
                     }
